@@ -58,6 +58,7 @@ TYPE_ALIASES: dict[str, ast.AST] = {}  # `X: TypeAlias = ...` of the module bein
 DYN: dict[str, list] = {}  # classes of dynamic values (dyn.py): class -> [(field, type, optional)]
 DYN_SINGLETONS: dict[str, str] = {}  # instance name -> its class
 STATIC_NOT_SEQ: set[str] = set()  # plain translated classes (records): no list or generator is an instance of one
+STATIC_ISINSTANCE: dict[tuple[str, str], bool] = {}  # (static class of x, C) -> isinstance(x, C), for stand-in classes whose real ones are related by inheritance
 DYN_ANY_NAMES: set[str] = set()  # annotations that denote a dynamic value
 NAMEDTUPLE_DYN: set[str] = set()  # the dynamic classes that are NamedTuples (iterable: their fields)
 
@@ -266,6 +267,10 @@ def static_truth(test, env):
     if isinstance(test, ast.Call) and isinstance(test.func, ast.Name) and test.func.id == "isinstance" and len(test.args) == 2 and not test.keywords \
             and isinstance(test.args[0], ast.Name) and isinstance(test.args[1], ast.Name) and env.get(test.args[0].id) == ("obj", test.args[1].id):
         return True  # the static type is that very class
+    if isinstance(test, ast.Call) and isinstance(test.func, ast.Name) and test.func.id == "isinstance" and len(test.args) == 2 and not test.keywords \
+            and isinstance(test.args[0], ast.Name) and isinstance(test.args[1], ast.Name) and isinstance(env.get(test.args[0].id), tuple) \
+            and env[test.args[0].id][0] == "obj" and (env[test.args[0].id][1], test.args[1].id) in STATIC_ISINSTANCE:
+        return STATIC_ISINSTANCE[(env[test.args[0].id][1], test.args[1].id)]
     if isinstance(test, ast.Call) and isinstance(test.func, ast.Name) and test.func.id == "isinstance" and len(test.args) == 2 and not test.keywords \
             and isinstance(test.args[0], ast.Name) and isinstance(test.args[1], ast.Name) and isinstance(env.get(test.args[0].id), tuple) \
             and env[test.args[0].id][0] in ("seq", "iter") and test.args[1].id in STATIC_NOT_SEQ:
@@ -757,8 +762,9 @@ class Mode:
         if isinstance(s, (ast.Assign, ast.AnnAssign)) and s.value is not None:
             tg_ = s.targets[0] if isinstance(s, ast.Assign) and len(s.targets) == 1 else getattr(s, "target", None)
             gv_ = s.value
-            while isinstance(gv_, ast.Call) and isinstance(gv_.func, ast.Name) and gv_.func.id == "cast" and len(gv_.args) == 2:
-                gv_ = gv_.args[1]
+            while (isinstance(gv_, ast.Call) and isinstance(gv_.func, ast.Name) and gv_.func.id == "cast" and len(gv_.args) == 2) \
+                    or (isinstance(gv_, ast.IfExp) and static_truth(gv_.test, env) is not None):
+                gv_ = gv_.args[1] if isinstance(gv_, ast.Call) else (gv_.body if static_truth(gv_.test, env) else gv_.orelse)
             if isinstance(tg_, ast.Name) and isinstance(gv_, (ast.Call, ast.Attribute)) and self.gen_call(gv_, env) is not None:
                 # x = <generator call>: nothing runs yet in Python.  Here the callee runs now (it changes nothing but its own
                 # arguments' consumption); x is the list of what it yields, and the exception it ends with, if any, is kept aside:
@@ -1417,6 +1423,8 @@ class Mode:
     def coerce(self, v, t, want, node):
         if compat(t, want):
             return v
+        if isinstance(t, tuple) and isinstance(want, tuple) and t[0] == "seq" and want[0] == "iter" and compat(t[1], want[1]):
+            return v  # a list where an iterable is expected (both are lists here)
         if DYN and want == "any":
             if t == "none":
                 return "O_None"
@@ -1434,6 +1442,8 @@ class Mode:
     def expr(self, e, env, k) -> str:
         tr = self.tr
         self.env_now = env
+        if isinstance(e, ast.IfExp) and static_truth(e.test, env) is not None:
+            return self.expr(e.body if static_truth(e.test, env) else e.orelse, env, k)  # decided by the static types: only that alternative
         if isinstance(e, ast.Constant):
             if isinstance(e.value, bool):
                 return k("true" if e.value else "false", "bool")
@@ -1788,6 +1798,10 @@ class Mode:
                     # an object iterated over, its items iterated over in turn (statements: NamedTuples).  An item that is not
                     # iterable would raise TypeError when its turn comes: outside the model (refused up front)
                     ri_, ys_i, ll_, ei_ = (self.tr.gensym(x_) for x_ in ("r", "ys", "ll", "e"))
+                    if self.tr.classes[t[1]].generators["__iter__"] == ("seq", "any"):
+                        # ... whose items are lists already
+                        return (f"let '({ri_}, _, {ys_i}) := {t[1]}___iter__ {v} in\nmatch {ri_} with\n| Exn {ei_} => {self.on_exn(ei_)}\n| Val _ =>\n"
+                                f"{go(rest[1:], acc + [ys_i])}\nend")
                     return (f"let '({ri_}, _, {ys_i}) := {t[1]}___iter__ {v} in\nmatch {ri_} with\n| Exn {ei_} => {self.on_exn(ei_)}\n| Val _ =>\n"
                             f"match obj_items_all {ys_i} with\n| None => {self.on_exn('OutsideModel')}\n| Some {ll_} =>\n{go(rest[1:], acc + [ll_])}\nend\nend")
                 if DYN and t == "any" and pt == "str":
@@ -2541,8 +2555,28 @@ UNITS = {
     # the rdflib integration's term encoder over rdflib's term objects as SPECIFIED here (URIRef, BNode, Literal: str subclasses; what
     # str(x), x.language, x.datatype give; `==`: same class and same string, for a Literal also equal language tags up to case and
     # equal datatypes; rdflib.graph.DATASET_DEFAULT_GRAPH_ID).  The specification is compared with the real rdflib by primcheck.py
-    "rdflib_serialize": {"src": "pyjelly/integrations/rdflib/serialize.py", "ctx": True, "uses": ["lookup_enc", "options", "encode"],
-                         "gen": "RdflibSerializeGen",
+    "rdflib_serialize": {"src": "pyjelly/integrations/rdflib/serialize.py", "ctx": True, "uses": ["lookup_enc", "options", "encode", "flows", "streams"],
+                         "gen": "RdflibSerializeGen", "explicit_T": True,
+                         # the drivers, once per kind of `data` (the stand-ins Graph / Dataset of translate/stubs/rdflib_containers.py, or a generator):
+                         # the unsuffixed names take a Graph (triples) / a Dataset (quads, graphs)
+                         "static_isinstance": [("Graph", "Graph", True), ("Graph", "Dataset", False), ("Dataset", "Graph", True), ("Dataset", "Dataset", True)],
+                         "variants": {"namespace_declarations_ds": {"of": "namespace_declarations"},
+                                      "triples_stream_frames_ds": {"of": "triples_stream_frames"}, "triples_stream_frames_gen": {"of": "triples_stream_frames"},
+                                      "quads_stream_frames_gen": {"of": "quads_stream_frames"},
+                                      },
+                         "functions": {
+                             "namespace_declarations": {"param_types": {"store": "Graph", "stream": "Stream"}},
+                             "namespace_declarations_ds": {"param_types": {"store": "Dataset", "stream": "Stream"}},
+                             "triples_stream_frames": {"param_types": {"data": "Graph", "stream": "Stream"}},
+                             "triples_stream_frames_ds": {"param_types": {"data": "Dataset", "stream": "Stream"}, "calls": {"namespace_declarations": "namespace_declarations_ds"}},
+                             "triples_stream_frames_gen": {"param_types": {"data": "list[list[Any]]", "stream": "Stream"}},
+                             "quads_stream_frames": {"param_types": {"data": "Dataset", "stream": "Stream"}, "calls": {"namespace_declarations": "namespace_declarations_ds"}},
+                             "quads_stream_frames_gen": {"param_types": {"data": "list[list[Any]]", "stream": "Stream"}, "raises_call": {"namespace_declarations": "AttributeError"}},
+                             "graphs_stream_frames": {"param_types": {"data": "Dataset", "stream": "Stream"}, "calls": {"namespace_declarations": "namespace_declarations_ds"}},
+                             # stream_frames by kind of data: a Graph goes to the TripleStream implementation only (the others ask it for .quads() / .graphs())
+                             "stream_frames": {"singledispatch": True, "param_types": {"data": "Dataset", "stream": "Stream"},
+                                               "impl_map": {"triples_stream_frames": "triples_stream_frames_ds"}},
+                             },
                          "items": [
                              {"dyn": "obj", "foreign": "rdflib", "module": "rdflib",
                               "classes": {"URIRef": [("value", "str")], "BNode": [("value", "str")],
@@ -2552,8 +2586,11 @@ UNITS = {
                               # x.datatype is a URIRef or None: the field stands for its string, `x.datatype and str(x.datatype)` is the field
                               "str_valued": ["datatype"],
                               "constants": {"DATASET_DEFAULT_GRAPH_ID": ("URIRef", "urn:x-rdflib:default")}},
+                             {"stub_class": "Graph", "src": "rdflib_containers.py", "methods": ["__init__", "__iter__", "namespaces"]},
+                             {"stub_class": "Dataset", "src": "rdflib_containers.py", "methods": ["__init__", "graphs", "quads", "namespaces"]},
                              {"extend": "TermEncoder", "subclass": "RDFLibTermEncoder", "base_src": "pyjelly/serialize/encode.py",
-                              "methods": ["encode_spo", "encode_graph"], "inline": ["get_iri_field", "get_literal_field", "get_triple_field"]}]},
+                              "methods": ["encode_spo", "encode_graph"], "inline": ["get_iri_field", "get_literal_field", "get_triple_field"]},
+                             "namespace_declarations", "triples_stream_frames", "quads_stream_frames", "graphs_stream_frames", "stream_frames"]},
     "encode": {"src": "pyjelly/serialize/encode.py", "ctx": True, "uses": ["lookup_enc", "options"], "gen": "EncodeGen",
                "items": ["split_iri", ("TermEncoder", ["__init__", "start_statement", "_entry_index", "encode_iri_indices", "encode_iri",
                                                        "encode_default_graph", "encode_literal", "set_bnode_field", "encode_quoted_triple"], ["encode_spo", "encode_graph"]),
@@ -2777,6 +2814,7 @@ def run_unit(repo: Path, unit: str) -> tuple["Translator", set[str], list[str]]:
     tr.deferred_abbrev: list[str] = []
     ext_specs = [i for i in (u["items"] or []) if isinstance(i, dict) and "extend" in i]
     tr.class_alias = {s_["subclass"]: s_["extend"] for s_ in ext_specs}
+
     defined_virtuals = {f"{s_['extend']}_{m_}" for s_ in ext_specs for m_ in s_["methods"]} | ({"any_eqb"} if ext_specs else set())
     defined_virtuals |= set(u.get("defines", ()))  # section variables of the units built on (an opaque class, its methods) that this unit defines
     tr.defined_virtuals = defined_virtuals
@@ -2829,6 +2867,8 @@ def run_unit(repo: Path, unit: str) -> tuple["Translator", set[str], list[str]]:
         if dtr.uses_any or any(v == "T" for v, _ in dinfo["decls"]):
             tr.uses_any = tr.uses_any  # the importing unit declares T only if it needs it (see translate_unit)
     # re-establish this unit's globals (a dependency run overwrote them)
+    STATIC_ISINSTANCE.clear()
+    STATIC_ISINSTANCE.update({(a_, b_): v_ for a_, b_, v_ in u.get("static_isinstance", ())})
     TYPE_ALIASES.clear()
     INT_ENUMS.clear()
     DYN.clear()
@@ -2839,7 +2879,7 @@ def run_unit(repo: Path, unit: str) -> tuple["Translator", set[str], list[str]]:
     items = None if items is None else [i for i in items if not (isinstance(i, dict) and "extend" in i)]
     dyn_specs = [i for i in (items or []) if isinstance(i, dict) and "dyn" in i]
     ext_funcs = [i for i in (items or []) if isinstance(i, dict) and "function" in i]
-    items = None if items is None else [i for i in items if not (isinstance(i, dict) and ("dyn" in i or "function" in i))]
+    items = None if items is None else [i for i in items if not (isinstance(i, dict) and ("dyn" in i or "function" in i or "stub_class" in i))]
     tr.func_specs = u.get("functions", {})
     for spec in dyn_specs:
         import dyn
@@ -2856,6 +2896,17 @@ def run_unit(repo: Path, unit: str) -> tuple["Translator", set[str], list[str]]:
         else:
             dyn.add_dyn(tr, repo, spec)
             tr.dyn_count = len(tr.out)
+    for spec in [i for i in (u["items"] or []) if isinstance(i, dict) and "stub_class" in i]:
+        # a class of a library the unit does not translate, SPECIFIED by a stand-in written in the subset (translate/stubs/): translated like a
+        # class of the repository; what it says about the library is trusted and compared with the real thing by the cross-check
+        sp = Path(__file__).resolve().parent / "stubs" / spec["src"]
+        node_ = next((n for n in ast.parse(sp.read_text()).body if isinstance(n, ast.ClassDef) and n.name == spec["stub_class"]), None)
+        if node_ is None:
+            bad(None, f"stubs/{spec['src']} does not define {spec['stub_class']}")
+        tr.method_selection[node_.name] = list(spec["methods"])
+        tr.virtual_methods[node_.name] = []
+        tr.out.append(f"(* ---- class {node_.name} (translate/stubs/{spec['src']}: the specification of a class of a library) *)")
+        tr.add_class(node_)
     for spec in ext_funcs:  # a function of another module that the unit's classes call
         fn = next((n for n in ast.parse((repo / spec["src"]).read_text()).body if isinstance(n, ast.FunctionDef) and n.name == spec["function"]), None)
         if fn is None:
